@@ -193,7 +193,7 @@ func (ps *PathState) branch(e *Exec, c *Term, site string) bool {
 	return cur
 }
 
-const maxConcretize = 1024 // three decimal digits (an integer printed with %q) fit
+const maxConcretize = 256
 
 // concretize case-splits a 64-bit term into concrete values.
 func (ps *PathState) concretize(e *Exec, t *Term, why string) int64 {
